@@ -70,6 +70,9 @@ def add_hydrogens_inside(rnd, lines):
             # ("HH11", "HD21") and the old digit-first style ("1HH1", "2HB ")
             h = pdbgen.setcols(src, 12, 16, rnd.choice([" H  ", " HA ", " HB1", "HH11", "HD21", "HG12", "1HH1", "2HB ", " HZ3"]))
             h = pdbgen.setcols(h, 76, 78, " H")
+            if rnd.random() < 0.4:
+                # an alternate-location tag (or none) that differs from the heavy atom's: ignored hydrogens define no conformation
+                h = pdbgen.setcols(h, 16, 17, rnd.choice(["Z", "C", "3", " "]))
             h = pdbgen.set_coords(h, x + 0.6, y + 0.6, z + 0.5)
             out.append(h)
     return out
